@@ -96,6 +96,7 @@ func (c *Cluster) exec(s *Step) {
 
 	c.net.legs = map[string]string{}
 	c.net.pickID = 0
+	c.hostile = false
 
 	// tasks woken by this step run now, alone
 	synctest.Wait()
